@@ -348,3 +348,48 @@ def edit_got(line):
     if "crash" in d:
         return line, "?"
     return "%s I=%s K=%d" % (d["ret"], d["I"], d["K"]), d.get("C", "?")
+
+
+# ---------------------------------------------------------------------------
+# C03: histories that reach multi-segment compositions, selections, commits and reads
+# ---------------------------------------------------------------------------
+
+def gen_commit_history(rng, length, stock=False):
+    """Typing bursts, partial/full selections (API and digit keys), caret moves, reopened segments
+    (BackSpace), confirm keys of both editors (space, Return with modifiers), commit_composition,
+    interleaved get_commit reads.  Never touches full_shape or the switcher."""
+    ops = ["getctx"]
+    punct = ",.`'" if stock else "'"
+    while len(ops) < length:
+        r = rng.random()
+        if r < 0.34:
+            for _ in range(rng.choice([1, 2, 3, 4, 6, 9])):
+                ops.append(key(ord(rng.choice(LETTERS))))
+        elif r < 0.52:
+            k = rng.choice(["sel", "sel", "selp", "selp", "digit"])
+            if k == "digit":
+                ops.append(key(ord(rng.choice("12345"))))
+            else:
+                ops.append("%s %d" % (k, rng.choice([0, 0, 1, 2, 3, 4, 5, 7, 9, 11, 14, rng.randrange(0, 25)])))
+        elif r < 0.62:
+            ops.append(rng.choice(["commit", "commit", key(XK["space"]), key(XK["Return"]), key(XK["Return"], CTRL),
+                                   key(XK["Return"], SHIFT), key(XK["space"])]))
+        elif r < 0.76:
+            ops.append("getcommit")
+            if rng.random() < 0.5:
+                ops.append("getcommit")
+        elif r < 0.86:
+            mv = rng.choice([key(XK["KP_Left"]), key(XK["Left"]), key(XK["Home"]), key(XK["End"]), key(XK["KP_Right"]),
+                             "caret %d" % rng.randrange(0, 10), key(XK["BackSpace"]), key(XK["BackSpace"]),
+                             key(XK["Escape"]), key(XK["Delete"])])
+            for _ in range(rng.choice([1, 1, 2, 3])):
+                ops.append(mv)
+        elif r < 0.93:
+            ops.append(rng.choice(["page 0", "page 1", key(XK["Next"]), key(XK["Down"]), key(XK["Up"]),
+                                   "hl %d" % rng.randrange(0, 12), "hlp %d" % rng.randrange(0, 5)]))
+        elif r < 0.97:
+            ops.append(key(ord(rng.choice(punct))))
+        else:
+            ops.append(rng.choice(["clear", "getctx", "opt soft_cursor %d" % rng.randrange(2),
+                                   "input " + "".join(rng.choice(LETTERS) for _ in range(rng.randrange(1, 9))).encode().hex()]))
+    return ops[:length]
